@@ -10,6 +10,7 @@
  *   %v field-vchar: VCHAR (0x21..0x7e)   %r reason-phrase char (HTAB / SP / VCHAR / obs-text)
  *   %w one OWS byte (SP / HTAB)          %k query-pair key/value char (query char without "&" and "=")
  *   %b ANY byte (unconstrained)          %% a literal '%'
+ *   %cX the ASCII letter X in either case (one symbolic byte with two values; consumes the template char X)
  * Because the harness wrote the text it knows where every part starts and ends.
  */
 #ifndef C20_TMPL_H
@@ -57,7 +58,7 @@ static inline int c_class(char k, uint8_t c) {
 static inline size_t t_len(const char *t, size_t tn) {
 	size_t n = 0;
 	for (size_t i = 0; i < tn; i++) {
-		if (t[i] == '%') i++;
+		if (t[i] == '%') { i++; if (t[i] == 'c') i++; }
 		n++;
 	}
 	return (n);
@@ -66,7 +67,7 @@ static inline size_t t_len(const char *t, size_t tn) {
 static inline size_t t_syms(const char *t, size_t tn) {
 	size_t n = 0;
 	for (size_t i = 0; i < tn; i++) {
-		if (t[i] == '%') { i++; if (t[i] != '%') n++; }
+		if (t[i] == '%') { i++; if (t[i] != '%') n++; if (t[i] == 'c') i++; }
 	}
 	return (n);
 }
@@ -80,6 +81,11 @@ static inline void t_emit(uint8_t *buf, size_t *pos, const char *t, size_t tn, c
 			i++;
 			if (t[i] == '%') {
 				buf[(*pos)++] = '%';
+			} else if (t[i] == 'c') {
+				uint8_t c = sym[(*si)++];
+				i++;
+				V_ASSUME(c == (uint8_t)(t[i] | 0x20) || c == (uint8_t)(t[i] & ~0x20));
+				buf[(*pos)++] = c;
 			} else {
 				uint8_t c = sym[(*si)++];
 				V_ASSUME(c_class(t[i], c));
